@@ -222,6 +222,12 @@ func h11LargePattern(pat int) (l1, l2 []int, levels int) {
 		l2[0] = l1[0]
 	case 5: // 51 v 2 without ties
 		mk(51, 2)
+	case 6: // 20 v 30 with ties: only the second sample is beyond the limit for tied data
+		mk(20, 30)
+		l2[3] = l1[4]
+	case 7: // 30 v 20 with ties
+		mk(30, 20)
+		l2[3] = l1[4]
 	default:
 		panic("no such pattern")
 	}
